@@ -52,8 +52,17 @@ type exec struct {
 	finished bool
 	blockAt  int
 	failAt   int
+	nbad     int
+	thorough bool
 	v2       bool
 	evB      int
+}
+
+func r2(thorough bool) int {
+	if thorough {
+		return 4
+	}
+	return 2
 }
 
 func ping(i int) *common.MessagePing { return &common.MessagePing{Seq: uint32(i), TimeUsec: 1} }
@@ -171,9 +180,15 @@ func (e *exec) Body() {
 			e.b.In = append(e.b.In, sx.FrameOf(true, byte(i), 42, 1, ping(100+i), nil, 0, 0))
 		}
 	}
+	// how many failures in a row (consecutive failing Write calls / unencodable items): 1..4
+	e.nbad = 1
+	if p.Scenario != "stall" {
+		e.nbad = []int{1, 3, 2, 4}[vmc.Choose(r2(e.thorough), "failures-in-a-row")] // quick: 1 or 3 in a row
+	}
 	if p.Fault == "write-error" || p.Fault == "write-timeout" {
 		e.failAt = 1 + vmc.Choose(3, "fail-at")
 		e.a.WriteFailAt = e.failAt
+		e.a.WriteFailN = e.nbad // consecutive failing calls
 		e.a.WriteErr = errors.New("injected write failure")
 		if p.Fault == "write-timeout" {
 			e.a.WriteErr = vnet.ErrTimeout // a net.Error with Timeout() == true
@@ -297,14 +312,18 @@ func (e *exec) Body() {
 		k := 0
 		for pos := 0; pos < 3; pos++ {
 			if pos == p.Pos {
-				bad()
+				for b := 0; b < e.nbad; b++ {
+					bad()
+				}
 			}
 			valid(k)
 			valid(k + 1)
 			k += 2
 		}
 		if p.Pos == 3 {
-			bad()
+			for b := 0; b < e.nbad; b++ {
+				bad()
+			}
 		}
 	}
 	e.appDone = true
@@ -331,20 +350,30 @@ func (e *exec) Body() {
 	} else {
 		// either closed and reported, or every later valid write was delivered
 		if !e.closeA {
-			wantAfter := wantA
-			alt := ""
+			// the items in flight at the failing calls may each be lost or delivered after all (a
+			// writer that repeats a call); everything else must arrive, once, in order
+			var cand []int
 			if p.Fault == "write-error" || p.Fault == "write-timeout" {
-				// the item in flight at the failing call may be lost (it is the one after the frames
-				// completed by the calls accepted before) or delivered after all (a writer that
-				// repeats the call); everything else must arrive, once, in order
-				idx := e.completeBeforeCall(e.a, e.failAt)
-				if idx >= 0 && idx < len(wantA) {
-					alt = fmt.Sprint(wantA)
-					wantAfter = append(append([]uint32{}, wantA[:idx]...), wantA[idx+1:]...)
-				}
+				cand = e.inFlightAtFailures(e.a, len(wantA))
 			}
-			if g := fmt.Sprint(gotA); g != fmt.Sprint(wantAfter) && g != alt {
-				e.problems = append(e.problems, fmt.Sprintf("after the failed write the channel stays open (no close event) but is silent: transport A received %v, valid writes submitted %v", gotA, wantAfter))
+			ok := false
+			for m := 0; m < 1<<uint(len(cand)) && !ok; m++ {
+				lost := map[int]bool{}
+				for b, idx := range cand {
+					if m&(1<<uint(b)) != 0 {
+						lost[idx] = true
+					}
+				}
+				var want []uint32
+				for i, x := range wantA {
+					if !lost[i] {
+						want = append(want, x)
+					}
+				}
+				ok = fmt.Sprint(gotA) == fmt.Sprint(want)
+			}
+			if !ok {
+				e.problems = append(e.problems, fmt.Sprintf("after %d failed write(s) in a row the channel stays open (no close event) but is silent: transport A received %v, valid writes submitted %v (items in flight at the failing calls: %v)", e.nbad, gotA, wantA, cand))
 			}
 		}
 	}
@@ -362,6 +391,30 @@ func (e *exec) numbersTolerant(c *vnet.FakeConn) []uint32 {
 	}
 	frames, _ := sx.ScanWire(sx.Concat(c.Written), false)
 	return e.numbersOf(frames)
+}
+
+// inFlightAtFailures: indices (into the submitted items) of the items that were being written
+// when a Write call failed: the item after the frames completed so far plus the items given up
+// earlier.
+func (e *exec) inFlightAtFailures(c *vnet.FakeConn, nitems int) []int {
+	var out []int
+	calls := 0
+	for _, io := range c.IO {
+		if !io.Write {
+			continue
+		}
+		calls++
+		if !io.Done {
+			idx := e.completeBeforeCall(c, calls) + len(out)
+			if idx >= 0 && idx < nitems && (len(out) == 0 || out[len(out)-1] != idx) {
+				out = append(out, idx)
+			}
+		}
+	}
+	if len(out) > 6 {
+		out = out[:6]
+	}
+	return out
 }
 
 // completeBeforeCall: number of complete frames in the bytes accepted before the k-th Write call.
@@ -491,7 +544,7 @@ func variants(thorough bool) []sx.Variant {
 		}
 		out = append(out, sx.Variant{
 			Name: p.name(), Class: p.Scenario, MaxSteps: 20000, MaxTime: 10 * time.Minute, Bound: bound, Shards: 4,
-			New: func() sx.Exec { return &exec{p: p} },
+			New: func() sx.Exec { return &exec{p: p, thorough: thorough} },
 		})
 	}
 	return out
